@@ -601,3 +601,151 @@ Lemma enough_more f rd : ib rd -> (length buf < f)%nat -> enough f rd.
 Proof. unfold enough, inb, plen. lia. Qed.
 
 End GenericLoops.
+
+(* ================================================================== (B3) getByPath as a whole *)
+
+(* ---- no Panic result once err.(Node) (710) is repaired; no hypothesis on the buffer, the schema or the path *)
+Section NoPanic.
+
+Lemma skip_all_packed_np : forall f buf rd lim ewt cnt, skip_all_packed f buf rd lim ewt cnt <> SaPanic.
+Proof.
+  induction f as [|f IH]; intros; cbn [skip_all_packed]; [discriminate|].
+  destruct (rd <? lim); [|discriminate].
+  pose proof (askip_never_panics buf rd ewt) as H. destruct (askip buf rd ewt); [apply IH | discriminate | contradiction].
+Qed.
+
+Lemma skip_all_unpacked_np : forall f buf rd fnum cnt, skip_all_unpacked f buf rd fnum cnt <> SaPanic.
+Proof.
+  induction f as [|f IH]; intros; cbn [skip_all_unpacked]; [discriminate|].
+  destruct (rd <? plen buf); [|discriminate].
+  destruct (ctag buf rd) as [[[num ewt] n]|]; [|discriminate].
+  destruct (negb (num =? fnum)); [discriminate|].
+  pose proof (askip_never_panics buf (rd + n) ewt) as H.
+  destruct (askip buf (rd + n) ewt); [apply IH | discriminate | contradiction].
+Qed.
+
+Lemma skip_all_elements_np fx buf rd fnum packed ewt : skip_all_elements fx buf rd fnum packed ewt <> SaPanic.
+Proof.
+  unfold skip_all_elements. destruct packed; [|apply skip_all_unpacked_np].
+  destruct (ctag buf rd) as [[[num wt] n]|]; [|discriminate].
+  destruct (aread_length buf (rd + n)) as [[len rd0]|]; [|discriminate].
+  destruct (f703 fx); [|apply skip_all_packed_np].
+  destruct ((len <? 0) || (rd0 + len >? plen buf)); [discriminate|].
+  pose proof (skip_all_packed_np (S (length buf)) buf rd0 (rd0 + len) ewt 0) as H.
+  destruct (skip_all_packed (S (length buf)) buf rd0 (rd0 + len) ewt 0); try discriminate; [|contradiction].
+  destruct (rd1 =? rd0 + len); discriminate.
+Qed.
+
+Lemma search_field_id_np : forall f buf rd id lim, search_field_id f buf rd id lim <> SPanic.
+Proof.
+  induction f as [|f IH]; intros; cbn [search_field_id]; [discriminate|].
+  destruct (rd <? lim); [|discriminate].
+  destruct (ctag buf rd) as [[[num wt] n]|]; [|discriminate].
+  destruct (num =? id); [discriminate|].
+  pose proof (askip_never_panics buf (rd + n) wt) as H.
+  destruct (askip buf (rd + n) wt); [apply IH | discriminate | contradiction].
+Qed.
+
+Lemma search_index_packed_np : forall f fx buf rd lim idx ewt cnt,
+  search_index_packed f fx buf rd lim idx ewt cnt <> SPanic.
+Proof.
+  induction f as [|f IH]; intros; cbn [search_index_packed]; [discriminate|].
+  destruct ((rd <? lim) && (cnt <? idx)).
+  - pose proof (askip_never_panics buf rd ewt) as H.
+    destruct (askip buf rd ewt); [apply IH | discriminate | contradiction].
+  - destruct (f701 fx && (rd >=? lim)); [discriminate|]. destruct (cnt <? idx); discriminate.
+Qed.
+
+Lemma search_index_unpacked_np : forall f fx buf rd idx ewt fnum cnt result ex,
+  search_index_unpacked f fx buf rd idx ewt fnum cnt result ex <> SPanic.
+Proof.
+  assert (Hfin : forall fx idx rd cnt result ex,
+    (if f701 fx && negb ex then SNotFound else if cnt <? idx then SNotFound else SFound result rd) <> SPanic).
+  { intros. destruct (f701 fx && negb ex); [discriminate|]. destruct (cnt <? idx); discriminate. }
+  induction f as [|f IH]; intros; cbn [search_index_unpacked]; [discriminate|].
+  destruct ((rd <? plen buf) && (cnt <? idx)); [|apply Hfin].
+  pose proof (askip_never_panics buf rd ewt) as H.
+  destruct (askip buf rd ewt) as [rd1| |]; [|discriminate|contradiction]. cbv zeta.
+  destruct (rd1 <? plen buf); [|apply Hfin].
+  destruct (ctag buf rd1) as [[[num wt] n]|]; [|discriminate].
+  destruct (negb (num =? fnum)); [apply Hfin | apply IH].
+Qed.
+
+Lemma search_index_np fx buf rd idx ewt packed fnum : search_index fx buf rd idx ewt packed fnum <> SPanic.
+Proof.
+  unfold search_index. destruct (f701 fx && (idx <? 0)); [discriminate|].
+  destruct packed; [|apply search_index_unpacked_np].
+  destruct (aread_length buf rd) as [[len rd0]|]; [apply search_index_packed_np | discriminate].
+Qed.
+
+Lemma search_key_np : forall f buf rdkey rd fnum, search_key f buf rdkey rd fnum <> SPanic.
+Proof.
+  induction f as [|f IH]; intros; cbn [search_key]; [discriminate|].
+  destruct (rd <? plen buf); [|discriminate].
+  destruct (aread_length buf rd) as [[len rd1]|]; [|discriminate].
+  destruct (ctag buf rd1) as [[[num1 wt1] n1]|]; [|discriminate].
+  destruct (rdkey (rd1 + n1)) as [[[|] rd2]|]; try discriminate.
+  destruct (ctag buf rd2) as [[[num2 vwt] n2]|]; [|discriminate].
+  pose proof (askip_never_panics buf (rd2 + n2) vwt) as H.
+  destruct (askip buf (rd2 + n2) vwt) as [rd3| |]; [|discriminate|contradiction].
+  destruct (rd3 >=? plen buf); [discriminate|].
+  destruct (ctag buf rd3) as [[[num3 wt3] n3]|]; [|discriminate].
+  destruct (negb (num3 =? fnum)); [discriminate | apply IH].
+Qed.
+
+Variable fx : fixes.
+Hypothesis H710 : f710 fx = true.
+
+Lemma gbp_final_np buf lbl t num tt start rd : gbp_final fx buf lbl t num tt start rd <> GPanicA.
+Proof.
+  unfold gbp_final. destruct ((tt =? T_LIST) || (tt =? T_MAP)).
+  - pose proof (skip_all_elements_np fx buf rd num (desc_packed lbl t) (elem_wt t)) as H.
+    destruct (skip_all_elements fx buf rd num (desc_packed lbl t) (elem_wt t)); [discriminate | | contradiction].
+    rewrite H710. discriminate.
+  - cbv zeta.
+    destruct (if desc_packed lbl t then Some (start, rd)
+              else match ctag buf rd with Some (_, _, n) => Some (rd + n, rd + n) | None => None end)
+      as [[start' rd1]|]; [|discriminate].
+    pose proof (askip_never_panics buf rd1 (elem_wt t)) as H.
+    destruct (askip buf rd1 (elem_wt t)) as [rd2| |]; [|discriminate|contradiction].
+    destruct (rd2 <? start'); discriminate.
+Qed.
+
+(* what the path loop does with a search result *)
+Ltac after_np IH :=
+  match goal with
+  | |- match ?r with SFound _ _ => _ | SNotFound => _ | SErrNode => _ | SErrRaw => _ | SPanic => _ end <> GPanicA =>
+    let Hr := fresh "Hr" in
+    assert (Hr : r <> SPanic) by (first [apply search_field_id_np | apply search_index_np | apply search_key_np]);
+    destruct r as [start rd1| | | |]; try congruence; try discriminate;
+    try (rewrite H710; discriminate);
+    try match goal with |- context [ProtoMsg.is_nil ?p'] => destruct (ProtoMsg.is_nil p') end;
+    try discriminate; try apply gbp_final_np;
+    try (destruct (ctag _ rd1) as [[[? ?] ?]|]; [apply IH | discriminate])
+  end.
+
+Lemma gbp_loop_np S : forall p buf rd isroot lbl t num, gbp_loop fx S buf p rd isroot lbl t num <> GPanicA.
+Proof.
+  induction p as [|s p' IH]; intros buf rd isroot lbl t num; cbn [gbp_loop]; [discriminate|]. cbv zeta.
+  destruct s as [n|nm|i|k|k].
+  - destruct (if isroot then Some (plen buf, rd) else aread_length buf rd) as [[mlen rd0]|]; [|discriminate].
+    destruct lbl; try discriminate; destruct t as [kk|name]; try discriminate;
+      (destruct (find_msg S name) as [md|]; [|discriminate]);
+      cbn [step_field]; (destruct (find_field md n) as [fd|]; [after_np IH|]);
+      match goal with |- context [search_field_id ?f ?b ?r ?i ?l] =>
+        pose proof (search_field_id_np f b r i l) as Hn; destruct (search_field_id f b r i l) end;
+      try congruence; try discriminate; try (rewrite H710; discriminate);
+      destruct (ProtoMsg.is_nil p'); discriminate.
+  - destruct (if isroot then Some (plen buf, rd) else aread_length buf rd) as [[mlen rd0]|]; [|discriminate].
+    destruct lbl; try discriminate; destruct t as [kk|name]; try discriminate;
+      (destruct (find_msg S name) as [md|]; [|discriminate]);
+      cbn [step_field]; (destruct (find_field_name md nm) as [fd|]; [after_np IH | discriminate]).
+  - destruct lbl; try discriminate. after_np IH.
+  - destruct lbl; try discriminate. after_np IH.
+  - destruct lbl; try discriminate. after_np IH.
+Qed.
+
+Theorem gbp_no_panic S root buf p : gbp fx S root buf p <> GPanicA.
+Proof. unfold gbp. destruct p; [discriminate | apply gbp_loop_np]. Qed.
+
+End NoPanic.
